@@ -655,10 +655,37 @@ def _prelude_train(world, pt):
         fit_to_variational_target(key, alt, loss, steps=2, optimizer=opt, show_progress=False)
 
 
+def _prelude_use(spec):
+    """Build a sibling model and *use* it (eager log_prob / gradient / sample), then drop it."""
+    import equinox as eqx
+    import jax.numpy as jnp
+    import jax.random as jr
+
+    m = zoo.build(spec)
+    shape, cond_dim = zoo.model_dims(spec)
+    x = jnp.linspace(-1.5, 2.5, 3 * max(1, int(np.prod(shape)))).reshape((3,) + tuple(shape))
+    cond = None if not cond_dim else jnp.ones((3, cond_dim)) * 0.5
+    try:
+        eqx.filter_grad(lambda d: d.log_prob(x, cond).sum())(m)
+    except Exception:  # noqa: BLE001 - e.g. no inverse implemented: sampling direction only
+        pass
+    try:
+        m.sample(jr.PRNGKey(0), (2,), condition=None if cond is None else cond[0])
+    except Exception:  # noqa: BLE001
+        pass
+
+
 def run_world(world):
     import jax
     import jax.random as jr
 
+    n_used = 0
+    for sib in world.get("prelude_use", []):
+        try:
+            _prelude_use(sib)
+            n_used += 1
+        except Exception:  # noqa: BLE001 - history, not the run under test
+            pass
     prelude_note = None
     if world.get("prelude_train"):
         try:
@@ -759,6 +786,7 @@ def run_world(world):
         "history_done": hist_done,
         "rejections": rejections,
         "prelude_train": prelude_note,
+        "prelude_used": n_used,
     }
 
 
@@ -788,7 +816,7 @@ def fired(world, result):
     return f
 
 
-def result_digest(result):
+def result_digest(result, include_history=True):
     h = hashlib.sha256()
     for s in result["steps"]:
         h.update(bytes([s["fault"]]))
@@ -804,7 +832,7 @@ def result_digest(result):
                 h.update(np.ascontiguousarray(np.asarray(leaf)).tobytes())
     h.update(repr(result["losses"]).encode())
     h.update(repr(result["exception"]).encode())
-    if result.get("rejections") is not None:
+    if include_history and result.get("rejections") is not None:
         h.update(repr(sorted(result["rejections"].items())).encode())
         h.update(repr(result.get("history_done")).encode())
     return h.hexdigest()
